@@ -109,6 +109,14 @@ def run(model, rep, tier):
         ok = bool(jt) and pattern.has(fn, '_N_l.append(_N_jt)', _N_jt=unparse(jt[0].target.elts[0]))
         rep.ob('lock-step', mod, fn, 'StarSet.%s: recorded jump type = index of the omega0 class the jump came from' % m, ok,
                '' if ok else 'jump type is not the enumerating index of jumpnetwork_index', engine='owner', qual='StarSet.' + m)
+    prune_rules(model, rep)
+
+
+
+CS, OC = 'onsager/crystalStars.py', 'onsager/OnsagerCalc.py'
+
+def prune_rules(model, rep):
+    """outer shell by membership, omega1 pruning predicate, lock-step pops (shared with C07)."""
     # ---- VacancyMediated.generate
     oc = model.mod('OnsagerCalc')
     vm = model.cls('OnsagerCalc', 'VacancyMediated')
@@ -157,8 +165,6 @@ def run(model, rep, tier):
         rep.ob('lock-step', oc, gen, 'om%s_jn, om%s_jt, om%s_SP bound from kinetic.jumpnetwork_omega%s()' % (k, k, k, k), ok,
                '' if ok else 'the lists are bound out of order', engine='tables', qual='VacancyMediated.generate')
 
-
-CS, OC = 'onsager/crystalStars.py', 'onsager/OnsagerCalc.py'
 BREAKERS = [
     (OC, "        self.om2_jn, self.om2_jt, self.om2_SP = self.kinetic.jumpnetwork_omega2()", "        if not hasattr(self, 'om2_jn'):\n            self.om2_jn, self.om2_jt, self.om2_SP = self.kinetic.jumpnetwork_omega2()", 'state-reuse-keyed'),
     (CS, "                if gi != gf: symmjumplist.append(((gf, gi), -gdx))", "                if gi != gf: symmjumplist.append(((gf, gi), gdx))", 'reversal-pairing'),
